@@ -446,6 +446,18 @@ def run(ctx):
         ctx.fail('curve rejected by PlotWrapTrace at event %s: %s; state havePrev=%s xPrev=%s gap=%s; curve %s' % (
             l, json.dumps(ev)[:500], st.get('havePrev'), st.get('xPrev'), st.get('gap'), json.dumps(m)[:500]),
             dict(meta=m, event=ev, l=l, before=traces[t][max(0, l - 4):l - 1]), sig=dict(kind='trace', op=ev and ev.get('op'), drawn_across_gap=gapped))
+    # XGrid.tla: the depth grid of the plots (growth beyond the listed properties; recorded, no verdict on C19)
+    from .. import xgrid
+    xg_mm = []
+    try:
+        xg_info = xgrid.run(ctx, xg_mm)
+    except Exception as e:
+        xg_info = dict(error='%s: %s' % (type(e).__name__, str(e)[:300]))
+    xg_info['mismatches'] = xg_mm[:10]
+    xg_info['mismatch_count'] = len(xg_mm)
+    ctx.notes['x_grid'] = xg_info
+    for m_ in xg_mm[:5]:
+        print('EXTRA-MISMATCH (XGrid, no listed property): ' + m_[:400], file=__import__('sys').stderr)
     ctx.rule = ('lattice: one case per (track, scale, value); plots: one case per generated plot (non-trivial: some output not entirely inside its '
                 'scale); one trace per plotted curve')
     ctx.assumptions += ['LIS input with single-sample channels in code 68, X in FEET, .1IN or M with the plot range asked in the same or another unit; positions quantised to 1e-4 in (tolerance 8 units), x to 0.01 ft',
